@@ -10,7 +10,8 @@ Carry == {"take_scalar", "take_list", "take_slice", "take_mask", "take_position"
           "sum", "mean", "median", "min", "std", "cumsum", "diff", "diff_keepaxis",
           "max", "prod", "var", "all", "any", "argmax_axis", "argmin_axis", "cumprod", "percentile", "sum_tuple", "median_skipna", "min_skipna", "sum_position",
           "transpose", "T", "swapaxes", "rollaxis", "newaxis", "squeeze", "repeat", "broadcast", "flatten", "flatten_reordered", "flatten_nonadjacent", "mean_tuple_reordered", "unflatten", "reshape",
-          "reindex_axis", "reindex_axis_axisobj", "reindex_axis_ndarray", "align_outer", "align_inner_sort", "take_dict", "loc_slice", "reindex_like", "sort_axis", "interp_axis", "dropna", "fillna", "setna", "put_copy", "copy"}
+          "reindex_axis", "reindex_axis_axisobj", "reindex_axis_ndarray", "align_outer", "align_inner_sort", "take_dict", "loc_slice", "reindex_like", "sort_axis", "interp_axis", "dropna", "fillna", "setna", "put_copy", "copy",
+          "take_ndmask", "take_ndmask_dimarray", "compress_ndmask", "take_pointwise", "setna_list", "interp_axis_identity", "broadcast_reordered"}
 \* operation classes that return arrays without the operands' metadata
 Drop == {"add", "sub", "mul", "truediv", "floordiv", "pow", "radd", "rsub", "scalar_mul", "ndarray_add",
          "neg", "pos", "invert", "eq", "ne", "lt", "le", "gt", "ge", "and", "or", "stack", "concatenate",
